@@ -572,7 +572,7 @@ func ParseContractText(data, path, pkg string) (*ContractFile, error) {
 	keywords := map[string]bool{"spec": true, "func": true, "lemma": true, "type": true, "property": true, "mode": true,
 		"requires": true, "ensures": true, "modifies": true, "loop": true, "inline": true, "allow": true, "assumed": true,
 		"ghost": true, "invariant": true, "opt": true, "uses": true, "axiom": true, "thorough": true, "pure": true,
-		"backends": true, "timeout": true, "decl": true, "opaque": true}
+		"backends": true, "timeout": true, "decl": true, "opaque": true, "inline-loop": true}
 	var raws []rawClause
 	for i, ln := range strings.Split(data, "\n") {
 		t := strings.TrimSpace(ln)
@@ -800,6 +800,15 @@ func ParseContractText(data, path, pkg string) (*ContractFile, error) {
 				return nil, fmt.Errorf("%s: %v", path, err)
 			}
 			curF.AllowPanic = append(curF.AllowPanic, c)
+		case "inline-loop":
+			if curF == nil {
+				return nil, errf(rc, "inline-loop outside func")
+			}
+			f := strings.Fields(rc.text)
+			if len(f) != 4 {
+				return nil, errf(rc, "inline-loop <callee> <ordinal> unroll <k>")
+			}
+			curF.Opts["inline-loop:"+f[0]+"."+f[1]] = f[2] + " " + f[3]
 		case "assumed":
 			if curF == nil {
 				return nil, errf(rc, "assumed outside func")
